@@ -96,7 +96,28 @@ def do_load(doc, r, rng):
     note = ""
     try:
         kw = {"root_container_name": doc["defn"]["root"]} if doc["kind"] == "gen" else {}
-        d = XtcePacketDefinition.from_xtce(io.BytesIO(xml), xtce_ns_prefix=arg, **kw)
+        # every documented way of handing the document over: binary stream, path as str / Path, open file, the top-level load_xml
+        how = rng.choice(["stream", "stream", "str", "path", "file", "load_xml"])
+        if how == "load_xml" and not (doc["kind"] == "file" and arg == "xtce"):
+            how = "str"
+        if how == "stream":
+            d = XtcePacketDefinition.from_xtce(io.BytesIO(xml), xtce_ns_prefix=arg, **kw)
+        else:
+            import pathlib
+            import tempfile
+            import space_packet_parser
+            with tempfile.TemporaryDirectory(prefix="c16-") as td:
+                fp = pathlib.Path(td) / "doc.xml"
+                fp.write_bytes(xml)
+                if how == "str":
+                    d = XtcePacketDefinition.from_xtce(str(fp), xtce_ns_prefix=arg, **kw)
+                elif how == "path":
+                    d = XtcePacketDefinition.from_xtce(fp, xtce_ns_prefix=arg, **kw)
+                elif how == "file":
+                    with open(fp, "rb") as fh:
+                        d = XtcePacketDefinition.from_xtce(fh, xtce_ns_prefix=arg, **kw)
+                else:
+                    d = space_packet_parser.load_xml(fp)
         outcome = "loaded"
     except Exception as e:  # noqa: BLE001
         outcome, d, note = "failed", None, f"{type(e).__name__}: {e}"[:160]
